@@ -366,7 +366,23 @@ func genConc(prop string, seed uint64, run int, p concProfile, av avoid) *Case {
 				}
 				chain = nil
 			}
-			tp.Txns = append(tp.Txns, TxnProg{Ops: []Op{{Kind: "frange", Filter: chain}}})
+			fop := Op{Kind: "frange", Filter: chain}
+			if ar := NewRng(seed, uint64(run), uint64(i*8+x), 98); ar.Chance(0.6) {
+				// ... followed by Sum/Avg/Min/Max of a numeric column over that selection (own stream)
+				var numeric []string
+				for _, c := range g.cols {
+					if c.Kind.Numeric() && c.Name != "expire" {
+						numeric = append(numeric, c.Name)
+					}
+				}
+				if len(numeric) > 0 {
+					fop.Col = numeric[ar.Intn(len(numeric))]
+					if ar.Chance(0.3) {
+						fop.Filter = nil // the whole collection
+					}
+				}
+			}
+			tp.Txns = append(tp.Txns, TxnProg{Ops: []Op{fop}})
 		}
 		cs.Threads = append(cs.Threads, tp)
 	}
